@@ -14,6 +14,8 @@ CONSTANTS
   Pres <- T_Pres
   PreSpecSrcs <- T_PreSpecSrcs
   AliasAttrs = FALSE
+  DeclFiles <- T_DeclFiles
+  HeaderRate = FALSE
   HistStride = 5
   ReadCache = FALSE
 CONSTRAINT Export
